@@ -355,6 +355,35 @@ Definition exec_obs (push_first : bool) (m : mgr) (op : mop) : mgr * mobs :=
           o_objs := map obj_obs objs2;
           o_map := map (fun p => (fst p, N.of_nat (snd p))) (map_sorted (mmap m2)) |}).
 
+(* ------------------------------------------------------------------------- *)
+(** * The receiving endpoints of STREAM_DATA (exit.Handler, forward.Handler,
+      file upload, shell): what the destination behind them sees *)
+
+(** [XGot d]: the destination received datum d; [XEof]: end of stream.
+    HandleStreamData of the exit / forward handler opens the payload and writes
+    it to the destination when it is non-empty - whatever the flags - and THEN
+    half-closes the destination when FIN_WRITE is set.  Tag 0 stands for the
+    sealed empty plaintext meshConn.CloseWrite sends. *)
+Inductive xev := XGot (d : N) | XEof.
+
+Definition endpoint_on_data (f : frame) : list xev :=
+  (if snd f =? 0 then [] else [XGot (snd f)]) ++ (if fst f then [XEof] else []).
+
+(** frames are handled one after the other (per-connection sequential drain);
+    nothing is sent after the end-of-write signal *)
+Fixpoint endpoint_receive (fs : list frame) : list xev :=
+  match fs with
+  | [] => []
+  | f :: t => endpoint_on_data f ++ (if fst f then [] else endpoint_receive t)
+  end.
+
+Definition xev_eqb (a b : xev) : bool :=
+  match a, b with
+  | XGot x, XGot y => x =? y
+  | XEof, XEof => true
+  | _, _ => false
+  end.
+
 (* ---- comparison ---------------------------------------------------------- *)
 
 Definition ev_eqb (a b : ev) : bool :=
@@ -393,3 +422,12 @@ Fixpoint mismatches_from (i : N) (cs : list case) : list N :=
   end.
 
 Definition mismatches (cs : list case) : list N := mismatches_from 0 cs.
+
+(** endpoint case: frames delivered, destination's observation *)
+Definition xcase := (list frame * list xev)%type.
+Definition xcase_ok (c : xcase) : bool := list_eqb xev_eqb (endpoint_receive (fst c)) (snd c).
+Fixpoint xmismatches_from (i : N) (cs : list xcase) : list N :=
+  match cs with
+  | [] => []
+  | c :: cs' => if xcase_ok c then xmismatches_from (i + 1) cs' else i :: xmismatches_from (i + 1) cs'
+  end.
